@@ -11,7 +11,7 @@ META = {
     'rule': 'pairs of DFAs over a common alphabet: exhaustive 2-state x 2-state over {a} plus seeded random 1-5 states; every '
             'construction compared with the Lean model (exact) and with an exact product-BFS language oracle (all word lengths); '
             'finite languages: random subsets of words <=3; non-trivial = both automata have >=2 reachable states / language with '
-            '>=2 words one a prefix of another; distinct by content',
+            '>=2 words one a prefix of another; distinct by content; also chain DFAs (accepting states far apart), \'_\'-joined and comma names for products (the recorded product-name finding is decided per case)',
     'assumptions': ['DFA.valid inputs (constructor); partial DFAs for make_total are built with check_validity=False',
                     'state names match \\w+ (product / set naming injective)'],
     'trusted_base': ['Spec: Gamba/Spec/Automata.lean'],
